@@ -273,6 +273,17 @@ static int Table_Cmp(var self, var obj) {
   var item0 = Table_Iter_Init(self);
   var item1 = iter_init(obj);
   
+  /* Tables holding equal bindings are equal whatever order their slots are in */
+  if (len(self) is len(obj)) {
+    bool same = true;
+    foreach (key in self) {
+      if (not mem(obj, key) or neq(Table_Get(self, key), get(obj, key))) {
+        same = false; break;
+      }
+    }
+    if (same) { return 0; }
+  }
+  
   while (true) {
     if (item0 is Terminal and item1 is Terminal) { return 0; }
     if (item0 is Terminal) { return -1; }
